@@ -214,6 +214,12 @@ def run(tier):
         for a, b, ver, what, detail in progs.statement_pairs(check, wp, family, core.seed(), 20000 if tier == "quick" else 300000):
             if what != "shared-node":
                 check.violation({"class": what, "family": family}, {"src": "<?php " + a + "\n" + b, "ver": ver, "first": a, "second": b, "detail": detail})
+    # the obligation LRValues.tla puts on grammar actions (every empty / error production whose value is read assigns $$): a stale
+    # value there puts a node of an EARLIER construct into the tree (foreign text, a node reachable twice, PHP 5 != PHP 7)
+    from . import yaccobl
+    for fam_ in ("7", "5"):
+        for sig_, rep_ in yaccobl.check_family(check, fam_):
+            check.violation(sig_, rep_)
     check.cov["variants_never_generated"] = uncovered
     # version gating: PHP 7-only syntax must be reported under 5.x
     table, behs = syntax.generate(check, "7", num=n, seed=core.seed() + 7, depth=3)
